@@ -275,6 +275,22 @@ def zoo_workload() -> dict[str, Any]:
     return {"files": files, "roles": roles, "mapping": "low", "target": "main.s", "name": "zoo"}
 
 
+def zoo_ips_workload() -> dict[str, Any]:
+    from ..ipsref import encode
+
+    wl = zoo_workload()
+    wl["target"] = "zoo.ips"
+    wl["name"] = "zoo_ips"
+    wl["files"]["zoo.ips"] = encode([(0x300000, "plain", b"xyz"), (0x300100, "rle", (300, 7)), (0x300400, "plain", bytes(range(40)))])
+    return wl
+
+
+def chain_workload(depth: int) -> dict[str, Any]:
+    """'=' symbols defined in reverse dependency order, each mentioning the next one twice."""
+    lines = ["*=0x008000"] + [f"s{i} = s{i - 1} + s{i - 1}" for i in range(depth, 0, -1)] + ["s0 = 1", f".db s{depth} & 0xff", ""]
+    return {"files": {"main.s": "\n".join(lines).encode()}, "roles": {"main.s": "source"}, "mapping": "low", "target": "main.s", "name": f"symbol_chain_{depth}"}
+
+
 def zoo_table_workload() -> dict[str, Any]:
     wl = zoo_workload()
     wl["target"] = "zoo.tbl"
@@ -307,9 +323,9 @@ def progen_workload(rng: random.Random) -> dict[str, Any]:
     incs = sorted(prog.inc_roots)
     if incs and rng.random() < 0.35:
         target = rng.choice(incs)
-    tables = sorted(k for k in files if k.endswith(".tbl"))
-    if tables and rng.random() < 0.2:
-        target = rng.choice(tables)  # a damaged table file is an input too: the assembler must still finish
+    tables = sorted(k for k in files if k.endswith((".tbl", ".ips")))
+    if tables and rng.random() < 0.25:
+        target = rng.choice(tables)  # a damaged table / patch file is an input too: the assembler must still finish
     return {"files": files, "roles": roles, "mapping": mapping, "target": target, "name": "progen"}
 
 
@@ -339,8 +355,8 @@ def gen_case(cseed: int, tier: str) -> dict[str, Any]:
 
 
 def plan(tier: str) -> dict[str, Any]:
-    fixed = [{"type": "base", "seed": 1, "workload": zoo_workload()}, {"type": "base", "seed": 99, "workload": zoo_table_workload()}] + [{"type": "base", "seed": 2 + i, "workload": wl} for i, wl in enumerate(sample_workloads())]
-    return {"fixed": fixed, "seeded": 64 if tier == "quick" else 0, "chunk": 1, "wall_cap_s": 240, "minimise_s": 40}
+    fixed = [{"type": "base", "seed": 1, "workload": zoo_workload()}, {"type": "base", "seed": 99, "workload": zoo_table_workload()}, {"type": "base", "seed": 98, "workload": zoo_ips_workload()}, {"type": "base", "seed": 97, "workload": chain_workload(45)}] + [{"type": "base", "seed": 2 + i, "workload": wl} for i, wl in enumerate(sample_workloads())]
+    return {"fixed": fixed, "seeded": 56 if tier == "quick" else 0, "chunk": 1, "wall_cap_s": 240, "minimise_s": 40}
 
 
 # ---------------------------------------------------------------------------
